@@ -5,6 +5,10 @@
 #include <algorithm>
 #include <cmath>
 #include <cassert>
+#ifdef ORATIO_VERIF
+#include <cstdlib>
+#include <thread>
+#endif
 
 namespace smt
 {
@@ -589,6 +593,14 @@ namespace smt
         {
             static hooks h;
             return h;
+        }
+        SMT_EXPORT unsigned pool_size() noexcept
+        {
+            if (const char *e = std::getenv("ORATIO_VERIF_POOL"))
+                if (const int n = std::atoi(e); n > 0)
+                    return static_cast<unsigned>(n);
+            const unsigned hc = std::thread::hardware_concurrency();
+            return hc ? hc : 1;
         }
     } // namespace verif
 
